@@ -36,7 +36,7 @@ META = {
                    'the model when the report was written (every element of every series), unit = its current unit, nothing missing, '
                    'nothing invented, JSON produced after the report.',
     'bounds': {t: {'configurations': 'as C09 ' + t, 'rendered widths': MODES} for t in ('quick', 'thorough')},
-    'outside': ['legacy report formats (CCUS profile, pre-LCOH labels)', 'add-on / S-DAC-GT / AGS reports', 'the numeric text of JSON numbers (json.dumps of a double is CPython repr: trusted)',
+    'outside': ['legacy report formats (CCUS profile, pre-LCOH labels)', 'add-on / AGS / SUTRA reports (the S-DAC-GT section is inside)', 'the numeric text of JSON numbers (json.dumps of a double is CPython repr: trusted)',
                 'negative-sign and thousands-separator renderings of individual figures (trusted: a rendered number contains no whitespace, bar or colon)'],
     'assumptions': ['float(text) / int(text) of a rendered figure = rnd_spec(value) (CPython)', 'a rendered figure contains no whitespace, "|", ":" or parentheses'],
     'stubs': ['geophires_x_result.open -> in-memory text; geophires_x_result.float/int -> placeholder-aware'],
@@ -173,7 +173,7 @@ def tokenise(text):
     return figs, tables
 
 
-TABLE_KEYS = {'HEATING, COOLING AND/OR ELECTRICITY PRODUCTION PROFILE': 'POWER GENERATION PROFILE',
+TABLE_KEYS = {'S-DAC-GT PROFILE': 'S-DAC-GT PROFILE', 'HEATING, COOLING AND/OR ELECTRICITY PRODUCTION PROFILE': 'POWER GENERATION PROFILE',
               'ANNUAL HEATING, COOLING AND/OR ELECTRICITY PRODUCTION PROFILE': 'HEAT AND/OR ELECTRICITY EXTRACTION AND GENERATION PROFILE',
               'REVENUE & CASHFLOW PROFILE': 'REVENUE & CASHFLOW PROFILE'}
 
@@ -249,6 +249,7 @@ def _roundtrip_once(cfg, factor, big):
         m.outputs.output_file = path
         with contextlib.redirect_stdout(io.StringIO()), shim.shadow((O, 'print_outputs_rich', lambda *a, **k: None), (O.Outputs, '_convert_units', lambda self, model: None)):
             m.outputs.PrintOutputs(m)
+            writer.print_sections(m)
         text = open(path).read()
         res = GR.GeophiresXResult(path)
         try:
@@ -321,6 +322,8 @@ def _roundtrip_once(cfg, factor, big):
                 try:
                     want = float(colf(r))
                     gotv = cells[ci + 1]
+                    if want != want:      # the model holds NaN (0/0 in the first years of a profile): the report prints 'nan', which is not a figure
+                        continue
                     if gotv is None or abs(float(gotv) - want) > 0.006 + 1e-3 * abs(want):
                         bad.append((key, f'row {r} col {ci + 1}', gotv, want))
                 except (TypeError, ValueError, IndexError):
@@ -363,10 +366,15 @@ def run_unit(unit):
         for (cat, fname), (ok, det) in eq_field_checks(text, res.result).items():
             harness.discharge(log, c, f'[{cat}] "{fname} = ...": the client returns the text printed after the equal sign (not dropped, not invented)', bool(ok), zv, conc)
         nfields = 0
+        # percentages of a fraction in [0, 1]: printed with a 10-character field they can never fill or overflow it; the 'full' / 'over'
+        # renderings of these figures are not reports the simulator can emit
+        bounded = {'Geothermal Ratio (electricity vs heat)', 'Percent Energy Devoted To Process'} if mode != 'pad' else set()
         for cat, fields in res.result.items():
             if cat == 'metadata' or not isinstance(fields, dict):
                 continue
             for fname, vu in fields.items():
+                if fname in bounded:
+                    continue
                 cands = bylabel.get(fname, [])
                 if vu is None:
                     harness.discharge(log, c, f'[{cat}] "{fname}": a figure printed under this label is not dropped by the parser',
